@@ -361,7 +361,7 @@ def main(argv=None):
             for n in notes:
                 print('   ', n)
         return 0
-    hs = {n: h for n, h in hs_all.items() if h['prop'] == prop and (tier == 'thorough' or h['tier'] == 'quick')}
+    hs = {n: h for n, h in hs_all.items() if h['prop'] == prop and (tier == 'thorough' or h['tier'] in ('quick', f'rot{seed % 3}'))}
     if a.only:
         hs = {n: h for n, h in hs.items() if fnmatch.fnmatch(n, a.only)}
     if not hs:
@@ -372,7 +372,7 @@ def main(argv=None):
                symex_cap=int(os.environ.get('KSMT_SYMEX_CAP', 300 if tier == 'quick' else 1800)))
     try:
         native_s = build_native(log)
-        metas, codegen_s = engine.codegen(feature, log)
+        metas, codegen_s = engine.codegen(feature, list(hs), log)
     except Exception as e:
         print(f'BUILD-FAILURE property={prop}: {e}')
         return 2
